@@ -1218,7 +1218,7 @@ def _literal(e, depth=0):
     return False
 
 
-CONST_CALLS = {"re.compile", "bytes", "frozenset", "tuple", "str", "int", "len"}
+CONST_CALLS = {"re.compile", "bytes", "frozenset", "tuple", "str", "int", "len", "slice"}
 
 
 def _const_expr(e, module_consts, depth=0):
@@ -1245,7 +1245,12 @@ def _const_expr(e, module_consts, depth=0):
 def _name_table(e, stable):
     """a dict / tuple / list display whose entries are constants or names that denote one object for the life of the module
     (imported objects, classes, functions): a dispatch table"""
-    ok = lambda x: isinstance(x, ast.Constant) or (isinstance(x, ast.Name) and x.id in stable)  # noqa: E731
+    def ok(x):
+        if isinstance(x, ast.Constant):
+            return True
+        while isinstance(x, ast.Attribute):   # `pkg.mod.Class`: an attribute chain rooted at an imported module
+            x = x.value
+        return isinstance(x, ast.Name) and x.id in stable
     if isinstance(e, ast.Dict):
         return bool(e.keys) and all(k is not None and ok(k) for k in e.keys) and all(ok(v) for v in e.values)
     if isinstance(e, (ast.Tuple, ast.List)):
@@ -1329,6 +1334,20 @@ def inline_constants(tree, shape):
             substitute(top, {name: st.value})
             if ast.dump(top) != before and name not in done:
                 done.append(name)
+    # `e[slice(a, b)]` is `e[a:b]`
+    class _Slices(ast.NodeTransformer):
+        def visit_Subscript(self, node):
+            self.generic_visit(node)
+            sl = node.slice
+            if isinstance(sl, ast.Call) and isinstance(sl.func, ast.Name) and sl.func.id == "slice" and not sl.keywords and 1 <= len(sl.args) <= 3:
+                a = list(sl.args)
+                lo, hi, st_ = (None, a[0], None) if len(a) == 1 else (a[0], a[1], a[2] if len(a) == 3 else None)
+                none = lambda x: None if x is None or (isinstance(x, ast.Constant) and x.value is None) else x  # noqa: E731
+                node.slice = ast.copy_location(ast.Slice(lower=none(lo), upper=none(hi), step=none(st_)), sl)
+            return node
+    if done:
+        _Slices().visit(tree)
+        ast.fix_missing_locations(tree)
     return done
 
 
@@ -2272,6 +2291,111 @@ def counted_loops(fn):
 
 
 # ---------------------------------------------------------------------------------------- driver
+def unchain(tree):
+    """N23.  `yield from chain(a, b)` is `yield from a; yield from b`; a plain function whose body is
+    `return chain.from_iterable(E)` is the generator `for c in E: yield from c` (for every consumer that iterates)."""
+    names = set()
+    for st in tree.body:
+        if isinstance(st, ast.ImportFrom) and st.module == "itertools":
+            names |= {a.asname or a.name for a in st.names if a.name == "chain"}
+    def is_chain(f):
+        return (isinstance(f, ast.Name) and f.id in names) or (isinstance(f, ast.Attribute) and f.attr == "chain" and isinstance(f.value, ast.Name)
+                                                               and f.value.id == "itertools")
+    count = 0
+    for owner in ast.walk(tree):
+        for fld in ("body", "orelse", "finalbody"):
+            seq = getattr(owner, fld, None)
+            if not isinstance(seq, list):
+                continue
+            out = []
+            for st in seq:
+                v = st.value if isinstance(st, ast.Expr) else None
+                if isinstance(v, ast.YieldFrom) and isinstance(v.value, ast.Call) and is_chain(v.value.func) and not v.value.keywords \
+                        and v.value.args and not any(isinstance(a, ast.Starred) for a in v.value.args):
+                    for a in v.value.args:
+                        out.append(ast.copy_location(ast.Expr(value=ast.YieldFrom(value=a)), st))
+                    count += 1
+                else:
+                    out.append(st)
+            seq[:] = out
+    for fn in [n for n in ast.walk(tree) if isinstance(n, ast.FunctionDef)]:
+        body = [s_ for s_ in fn.body if not (isinstance(s_, ast.Expr) and isinstance(s_.value, ast.Constant))]
+        if len(body) == 1 and isinstance(body[0], ast.Return) and isinstance(body[0].value, ast.Call):
+            c = body[0].value
+            f = c.func
+            if isinstance(f, ast.Attribute) and f.attr == "from_iterable" and is_chain(f.value) and len(c.args) == 1 and not c.keywords:
+                var = "_chained"
+                loop = ast.For(target=ast.Name(id=var, ctx=ast.Store()), iter=c.args[0],
+                               body=[ast.Expr(value=ast.YieldFrom(value=ast.Name(id=var, ctx=ast.Load())))], orelse=[])
+                fn.body = [s_ for s_ in fn.body if s_ is not body[0]] + [ast.copy_location(loop, body[0])]
+                count += 1
+    if count:
+        ast.fix_missing_locations(tree)
+    return count
+
+
+def expand_table_dispatch(tree):
+    """N24.  A statement that calls through a literal dispatch table - `r = yield from {"a": A, "b": B}[k].m(...)`,
+    `{"a": f, "b": g}[k](...)` - is the if-chain over the table's keys with the entry substituted (`else: raise KeyError(k)`),
+    when the key expression is a plain name and the entries are names / attribute chains."""
+    count = 0
+
+    def entry_ok(v):
+        while isinstance(v, ast.Attribute):
+            v = v.value
+        return isinstance(v, ast.Name)
+
+    def find(st):
+        hits = []
+        for c in ast.walk(st):
+            if isinstance(c, ast.Call):
+                f = c.func
+                sub = f.value if isinstance(f, ast.Attribute) else f
+                if isinstance(sub, ast.Subscript) and isinstance(sub.value, ast.Dict) and isinstance(sub.slice, ast.Name) and sub.value.keys \
+                        and all(isinstance(k, ast.Constant) for k in sub.value.keys) and all(entry_ok(v) for v in sub.value.values) \
+                        and len({repr(k.value) for k in sub.value.keys}) == len(sub.value.keys):
+                    hits.append(sub)
+        return hits
+    for owner in ast.walk(tree):
+        if not isinstance(owner, (ast.FunctionDef, ast.If, ast.For, ast.While, ast.With, ast.Try, ast.ExceptHandler)):
+            continue
+        for fld in ("body", "orelse", "finalbody"):
+            seq = getattr(owner, fld, None)
+            if not isinstance(seq, list):
+                continue
+            for i, st in enumerate(seq):
+                if not isinstance(st, (ast.Assign, ast.Expr, ast.Return)):
+                    continue
+                hits = find(st)
+                if len(hits) != 1:
+                    continue
+                sub = hits[0]
+                key = sub.slice
+                if sum(1 for n in ast.walk(st) if isinstance(n, ast.Name) and n.id == key.id and isinstance(n.ctx, ast.Store)):
+                    continue
+                chain_ = None
+                for k, v in reversed(list(zip(sub.value.keys, sub.value.values))):
+                    class _Sub(ast.NodeTransformer):
+                        def visit_Subscript(self, node):
+                            if node is target:
+                                return copy.deepcopy(v)
+                            return self.generic_visit(node)
+                    clone = copy.deepcopy(st)
+                    # locate the clone's subscript by position in walk order
+                    idx = [n is sub for n in ast.walk(st)].index(True)
+                    target = list(ast.walk(clone))[idx]
+                    clone = _Sub().visit(clone)
+                    test = ast.Compare(left=ast.Name(id=key.id, ctx=ast.Load()), ops=[ast.Eq()], comparators=[copy.deepcopy(k)])
+                    orelse = [chain_] if chain_ is not None else [ast.Raise(exc=ast.Call(func=ast.Name(id="KeyError", ctx=ast.Load()),
+                                                                                      args=[ast.Name(id=key.id, ctx=ast.Load())], keywords=[]), cause=None)]
+                    chain_ = ast.If(test=test, body=[clone], orelse=orelse)
+                seq[i] = ast.copy_location(chain_, st)
+                count += 1
+    if count:
+        ast.fix_missing_locations(tree)
+    return count
+
+
 def normalise(tree, modname, shape_all=None, keep=frozenset()):
     """normalise `tree` in place against the pinned shape of module `modname`; returns a log dict"""
     shape_all = shape_all if shape_all is not None else load_shape()
@@ -2280,6 +2404,12 @@ def normalise(tree, modname, shape_all=None, keep=frozenset()):
         return log
     shape = shape_all[modname]
     log["constants"] = inline_constants(tree, shape)
+    uc = unchain(tree)
+    if uc:
+        log["unchained"] = uc
+    td = expand_table_dispatch(tree)
+    if td:
+        log["table_dispatch"] = td
     fac = instantiate_factories(tree, shape)
     if fac:
         log["factories"] = fac
